@@ -19,7 +19,7 @@ CMP = {ast.Eq: operator.eq, ast.NotEq: operator.ne, ast.Lt: operator.lt, ast.LtE
        ast.Is: operator.is_, ast.IsNot: operator.is_not}
 
 
-STR_METHODS = {"format", "zfill", "upper", "lower", "strip", "lstrip", "rstrip", "startswith", "endswith", "split", "ljust", "rjust", "replace", "find", "rfind", "isdigit", "isalpha"}
+STR_METHODS = {"join", "format", "zfill", "title", "capitalize", "expandtabs", "splitlines", "partition", "rpartition", "count", "isspace", "isupper", "islower", "isalnum", "center", "encode", "upper", "lower", "strip", "lstrip", "rstrip", "startswith", "endswith", "split", "ljust", "rjust", "replace", "find", "rfind", "isdigit", "isalpha"}
 
 
 class Struct:
